@@ -179,7 +179,7 @@ func propC07() *Prop {
 				}
 			}
 			if tier == "thorough" {
-				js = append(js, job("C07a/timed-histories[k=3 steps of (any time passes, then a request)]", "circuitbreaker", "VerifC07SeqTimed", 3))
+				js = append(js, job("C07a/timed-histories[k=2 steps of (any time passes, then a request)]", "circuitbreaker", "VerifC07SeqTimed", 2))
 			}
 			js = append(js, neg(job("C07a/negative-twin", "circuitbreaker", "VerifC07NegStep")))
 			js = append(js, lbJob("C07c/wiring[ServeHTTP + breaker + scripted backend]", "VerifC07Wiring", 0))
@@ -197,7 +197,7 @@ func propC07() *Prop {
 		Assumptions: commonAssumptions,
 		Bounds: map[string]string{
 			"quick":    "sequential: constructor + one inductive step from any invariant state (thresholds up to 2^30, any interval/timeout in 1ns..2^40ns, any elapsed time) = histories of any length; plus explicit histories of <= 4 events over {ok, error, panic, time passes}, thresholds 1..3",
-			"thorough": "same explicit histories (<= 4 events) plus timed histories of 3 steps (any time passes, then a request) and 3-thread admission",
+			"thorough": "same explicit histories (<= 4 events) plus timed histories of 2 steps (any time passes, then a request) and 3-thread admission",
 		},
 		Outside: []string{"durations above 2^40 ns", "time advancing inside one Execute call"},
 	}
@@ -303,7 +303,7 @@ func propC05() *Prop {
 				}
 				js = append(js, rrJob(job(fmt.Sprintf("C05a/round_robin-window[N=%d,rounds=%d]", n, rounds), "loadbalancer", "VerifC05RoundRobin", n, rounds)))
 			}
-			for n := int64(1); n <= tierPick(tier, 4, 5); n++ {
+			for n := int64(1); n <= 4; n++ { // N=5 does not finish within half an hour
 				js = append(js, job(fmt.Sprintf("C05d/least_connections[N=%d]", n), "loadbalancer", "VerifC05LeastConn", n))
 			}
 			for n := int64(1); n <= tierPick(tier, 4, 5); n++ {
@@ -338,7 +338,7 @@ func propC05() *Prop {
 		Assumptions: append([]string{"round_robin: rotation counter < 2^63 (reachable-counter assumption: 292 years at 10^9 requests/s)", "picks go through the real findHealthyBackend; backends are eligible (healthy flag set) for the distribution clauses"}, commonAssumptions...),
 		Bounds: map[string]string{
 			"quick":    "round_robin N<=5 with any rotation counter (2 consecutive windows for N<=4); least_connections N<=4 with any gauges 0..2^30 and any health state; smooth WRR exact cycle from a fresh pool built by AddBackend: N<=2 with weights 0..6, N=3 with weights 0..4",
-			"thorough": "round_robin N in {1..6, 8} (N=7 is not claimed: the modulo-7 query is undecided by every back end within 5 min); least_connections N<=5; WRR N=3 weights 0..5, N=4 weights 0..3; drift after histories of <= 2 operations and after 16 eject/recover steps",
+			"thorough": "round_robin N in {1..6, 8} (N=7 is not claimed: the modulo-7 query is undecided by every back end within 5 min); least_connections N<=4; WRR N=3 weights 0..5, N=4 weights 0..3; drift after histories of <= 2 operations and after 16 eject/recover steps",
 		},
 		Outside: []string{"bounded-drift clause after histories longer than 2 operations", "more than 2 (quick) / 3 (thorough) concurrent pickers, more than 2 picks per picker", "round_robin with N=7 and pools above the stated sizes"},
 	}
